@@ -127,13 +127,9 @@ class WorldFile(FileList):
         self._modify(atom_inst, FileList.remove)
 
     def _modify(self, atom_inst, func):
-        if atom_inst.slot:
-            for slot in atom_inst.slot:
-                if slot == "0":
-                    new_atom_inst = atom(atom_inst.key)
-                else:
-                    new_atom_inst = atom(atom_inst.key + ":" + slot)
-                func(self, new_atom_inst)
+        # the slot is one string ("3.11"), not a sequence of slots
+        if atom_inst.slot and atom_inst.slot != "0":
+            new_atom_inst = atom(atom_inst.key + ":" + atom_inst.slot)
         else:
-            atom_inst = atom(atom_inst.key)
-            func(self, atom_inst)
+            new_atom_inst = atom(atom_inst.key)
+        func(self, new_atom_inst)
